@@ -176,6 +176,12 @@ func verifyFuncOnce(w *World, key string, opts VerifyOpts) (res *FuncResult) {
 		c.Notes = append(c.Notes, key+": no return is reachable")
 		return
 	}
+	// some return must be reachable under everything assumed on the way (contracts of callees, invariants, axioms): a
+	// contradiction among them would make every obligation below hold vacuously
+	{
+		o := c.oblige(key+"#vacuity:return-reachable", "vacuity", key, "assumptions made on the way to a return are satisfiable", fr.pos(fn.Pos()), ret.st.Reach, "false", nil)
+		o.Goal = "false"
+	}
 	// ensures
 	post := fr.scope(ret.st, fr.entry)
 	bindResults(post.vars, fn.Signature, ret.results)
@@ -195,7 +201,14 @@ func verifyFuncOnce(w *World, key string, opts VerifyOpts) (res *FuncResult) {
 	for i, mu := range x.mutexTerms {
 		_ = i
 		// the mutex of an object this function allocated did not exist on entry: it counts as free then
-		was := ite(sx(">=", sx("ref", mu), x.get(fr.entry, "alloc")), "0", sx("select", x.get(fr.entry, "lock"), mu))
+		var own []string
+		for _, f := range x.freshMutexes {
+			own = append(own, eq(mu, f))
+		}
+		was := sx("select", x.get(fr.entry, "lock"), mu)
+		if len(own) > 0 {
+			was = ite(or(own...), "0", was)
+		}
 		g := eq(sx("select", x.get(ret.st, "lock"), mu), was)
 		if hasOpt(ct, "lock-unbalanced") {
 			break
